@@ -244,6 +244,13 @@ ICompact(h) ==
      ELSE IF nd = rec[h].data THEN NoChange("icompact", arg, "ok", 0)
      ELSE Commit("icompact", arg, h, Det(h), nd, TRUE, <<>>, <<>>, "ok", 1)
 
+\* reference_array<T>(len) / item_array<T>(len): an empty array with room for len elements (len < 0: no storage)
+UCtor(h, len) ==
+  LET arg == [h |-> h, len |-> len] IN
+  /\ kind \in {"ref", "item"} /\ IsNull(h)
+  /\ IF len < 0 THEN NoChange("ctor", arg, "ok", AnyOut)
+     ELSE Commit("ctor", arg, h, Det(h), <<>>, TRUE, <<>>, <<>>, "ok", AnyOut)
+
 \* unique_array::resize(len): the tail is destroyed / default elements are added
 UResize(h, len) ==
   LET arg == [h |-> h, len |-> len] d == Det(h) IN
@@ -460,6 +467,7 @@ Next ==
        \/ \E pos \in Pos, o \in 0..NO, n \in 0..NN : A /\ (Prune => n = IF o = 0 THEN 0 ELSE NN) /\ ISet(h, pos, o, n)
        \/ \E pos \in 0..MaxArg, o \in 0..NO : A /\ IElem(h, pos, o)
        \/ A /\ ICompact(h)
+       \/ \E len \in (-1)..MaxArg : (Prune /\ h # 1 => len = 1) /\ UCtor(h, len)
        \/ \E len \in 0..MaxArg : A /\ UResize(h, len)
        \/ \E len \in (-2)..MaxArg : A /\ UReserve(h, len)
        \* item_group
